@@ -36,9 +36,6 @@ Inductive case :=
    Buffered() afterwards) of each *)
 | CBufio (cap : N) (stream : str) (segs : list N) (ops : list bop) (res : list (str * N * N)).
 
-Definition within (obs full : str) (lo hi : N) : bool :=
-  is_prefix obs full && (lo <=? nlen' obs) && (nlen' obs <=? hi).
-
 Fixpoint run_ops (b : breader) (ops : list bop) : outcome (list (str * N * N)) :=
   match ops with
   | [] => Ok []
